@@ -202,6 +202,31 @@ def _run_case(case: dict, judges: list[str], opts: dict):
             out["viol"].append({"judge": "tie", "what": "the optimizer's output is not accepted by the proved "
                                 f"translation validator (Opt.ochk_grammar): {verdict[:200]}", "case": case,
                                 "optimized": sexp_o if not verdict.startswith("EXPORT") else None, "original": sexp})
+        # the passes themselves (coq/OptPass.v, proved to produce only validated tables): the table each modelled
+        # pass produces alone must be IDENTICAL to the table the extracted model of the pass computes
+        pm = out.setdefault("passmodel", {"same": 0, "diff": 0, "changed": 0})
+        from pest import Parser as _Parser
+        from pest.grammar.optimizer import DEFAULT_OPTIMIZER_PASSES as _DP, Optimizer as _Opt
+        bis = " ".join(str(syms.rule(n)) for n in syms.exported if isinstance(pI.rules.get(n), BuiltInRule))
+        for pname, key in (("unroll", "unroll"), ("inline built-in", "inline-builtin")):
+            try:
+                step = [st for st in _DP if st.name == pname]
+                p1 = _Parser.from_grammar(case["grammar"], optimizer=_Opt(step))
+                roots = list(syms.exported) + (["SKIP"] if "SKIP" in p1.rules and "SKIP" not in syms.exported else [])
+                sexp_1, _ = export_parser(p1, roots=roots, syms=syms)
+                ans = _drv.ask(f"U {key} ({bis}) " + sexp_1)
+            except ExportError as e:
+                ans = f"EXPORT {e}"
+            except Exception as e:  # noqa: BLE001
+                ans = f"BUILD {type(e).__name__}"
+            if ans.startswith("SAME"):
+                pm["same"] += 1
+                pm["changed"] += int(sexp_1 != sexp)
+            else:
+                pm["diff"] += 1
+                out["viol"].append({"judge": "tie", "what": f"the table produced by the optimizer pass {pname!r} alone differs "
+                                    f"from the table the model of that pass (OptPass.v) computes: {ans[:200]}",
+                                    "case": case, "original": sexp})
         if _drv.ask("G " + sexp) != "OK" or _drv.ask("B " + " ".join(map(str, syms.inlined))) != "OK":
             out["viol"].append({"judge": "tie", "what": "driver lost the grammar", "case": case})
             return out
@@ -487,6 +512,10 @@ def run_cases(cases: list[dict], judges: list[str], opts: dict | None = None, np
             oc = agg.setdefault("optcheck", {"valid": 0, "invalid": 0, "changed": 0})
             for kk in oc:
                 oc[kk] += r["optcheck"][kk]
+        if "passmodel" in r:
+            pmm = agg.setdefault("passmodel", {"same": 0, "diff": 0, "changed": 0})
+            for kk in pmm:
+                pmm[kk] += r["passmodel"][kk]
         agg["viol"].extend(r["viol"])
         if len(agg["labels"]) < 5:
             agg["labels"].append(r["label"])
